@@ -8,6 +8,8 @@
 -/
 import PrologVerif.Proofs.Promise
 import PrologVerif.Model.PTree
+import PrologVerif.Proofs.VMCancel
+import PrologVerif.Restate
 namespace PrologVerif.C13
 open PrologVerif PrologVerif.Promise
 
@@ -25,7 +27,7 @@ theorem C13_poll_first (sem : Sem τ ρ ε σ) (c n : Nat) (p : P τ ρ ε) (sta
     `IterBounded`) ever completes more than `c` iterations in total, whatever the program: the
     pending call returns after at most `c` more thunks -/
 theorem C13_bounded_work (sem : Sem τ ρ ε σ) (c : Nat) (hb : IterBounded sem c) :
-    ∀ (n : Nat) (stack : List (P τ ρ ε)) (m : M σ) (r : Res ε) (m' : M σ),
+    ∀ (n : Nat) (stack : List (P τ ρ ε)) (m : M σ) (r : Promise.Res ε) (m' : M σ),
       force sem (some c) n stack m = some (r, m') → m.iter ≤ c → m'.iter ≤ c
   | 0, _, _, _, _, h, _ => by simp [force] at h
   | n + 1, [], m, r, m', h, hm => by simp [force] at h; rw [← h.2]; exact hm
@@ -87,5 +89,150 @@ theorem C13_pure_iterBounded (c : Nat) : IterBounded PTree.sem c where
         omega
       · simp only [Prod.mk.injEq] at h; rw [← h.2]; exact hm
     · simp only [Prod.mk.injEq] at h; rw [← h.2]; exact hm
+
+end PrologVerif.C13
+
+/-! ## the VM instance: cancellation reaches every nested trampoline (proofs: Proofs/VMCancel.lean)
+
+  `IterBounded` is too weak for the VM: the thunks of `\+` and findall/3 run a nested trampoline
+  under the context stored in the state (`St.cancelAt`), so they stay within `c` only as long as
+  that context is the one cancelled at `c`.  The invariant-carrying form: -/
+
+namespace PrologVerif.C13
+open PrologVerif PrologVerif.Promise PrologVerif.VM PrologVerif.VMCancel
+
+/-- **C13_bounded_work_inv** (generic): `C13_bounded_work` relative to a state invariant `Inv` that
+    thunks and recovery functions keep (`IterBoundedInv sem c Inv`: started in a state satisfying
+    `Inv` within `c`, they end in such a state) -/
+theorem C13_bounded_work_inv {τ ρ ε σ : Type} (sem : Sem τ ρ ε σ) (c : Nat) (Inv : σ → Prop)
+    (hb : IterBoundedInv sem c Inv) (n : Nat) (stack : List (P τ ρ ε)) (m : M σ) (r : Promise.Res ε) (m' : M σ)
+    (h : force sem (some c) n stack m = some (r, m')) (hi : Inv m.user) (hm : m.iter ≤ c) :
+    Inv m'.user ∧ m'.iter ≤ c :=
+  force_bounded_inv sem c Inv hb n stack m r m' h hi hm
+
+/-- the old form is the instance `Inv = True` -/
+theorem C13_iterBounded_iff {τ ρ ε σ : Type} (sem : Sem τ ρ ε σ) (c : Nat) :
+    IterBounded sem c ↔ IterBoundedInv sem c (fun _ => True) := iterBounded_iff sem c
+
+/- **C13_vm_context_preserved**: no step of the VM — instruction, continuation, built-in, thunk
+    (nested trampolines included), recovery closure, trampoline — ever changes the context
+    (`St.cancelAt`); only thunks and the trampoline advance the poll counter -/
+restate C13_vm_context_preserved := VMCancel.cancelAt_preserved
+
+/-- the VM semantics satisfies `IterBoundedInv` for the invariant "the context is cancelled at `c`" -/
+theorem C13_vm_iterBoundedInv (fuel c : Nat) :
+    IterBoundedInv (VM.sem fuel) c (fun s => s.cancelAt = some c) := vm_iterBoundedInv fuel c
+
+/-- **C13_vm_bounded_work**: with the context cancelled at poll `c`, every run of the trampoline
+    over the VM semantics — for every program, stack, state and fuel — that starts within `c` ends
+    within `c`: the iterations of ALL nested trampolines of `\+` and findall/3 (any depth; they share
+    the counter) included.  So the pending call returns after at most `c` more thunks in total. -/
+theorem C13_vm_bounded_work (fuel c n : Nat) (stack : List Pr) (m : MS) (r : Promise.Res Err) (m' : MS)
+    (h : force (VM.sem fuel) (some c) n stack m = some (r, m'))
+    (hc : m.user.cancelAt = some c) (hm : m.iter ≤ c) :
+    m'.user.cancelAt = some c ∧ m'.iter ≤ c :=
+  vm_force_bounded fuel c n stack m r m' h hc hm
+
+/-- one thunk, whatever it nests -/
+theorem C13_vm_thunk_bounded (fuel c : Nat) (t : Thunk) (m : MS) (q : Pr) (m' : MS)
+    (h : evalThunk fuel t m = some (q, m')) (hc : m.user.cancelAt = some c) (hm : m.iter ≤ c) :
+    m'.user.cancelAt = some c ∧ m'.iter ≤ c :=
+  vm_thunk_bounded fuel c t m q m' h hc hm
+
+/-- **C13_vm_cancel_propagates**: a cancelled nested trampoline of `\+` / findall/3 (they run under
+    the caller's context) makes the thunk return `Error(ctx.Err())` = "context canceled", in a state
+    in which `ctx.Done()` is ready -/
+theorem C13_vm_cancel_propagates (n : Nat) (k : Cont) (env : Env) (m m' : MS) :
+    (∀ goal, negateRun n goal env m = some (.cancelled, m') →
+      evalThunk (n + 1) (.negate goal k env) m = some (errP (.goErr "context canceled"), m') ∧
+      isCancelled m.user.cancelAt m'.iter = true) ∧
+    (∀ tmpl goal inst, findallRun n tmpl goal env m = some (.cancelled, m') →
+      evalThunk (n + 1) (.findall tmpl goal inst k env) m = some (errP (.goErr "context canceled"), m') ∧
+      isCancelled m.user.cancelAt m'.iter = true) :=
+  vm_cancel_propagates n k env m m'
+
+/-- **C13_vm_cancel_wins**: if the thunk called in an iteration returns in a state in which
+    `ctx.Done()` is ready — in particular after a trampoline nested in it (at any depth) was
+    cancelled, whatever the thunk made of that — the next iteration of the enclosing trampoline
+    returns `.cancelled`, the state exactly as the thunk left it -/
+theorem C13_vm_cancel_wins (fuel n : Nat) (ca : Option Nat) (p : Pr) (stack : List Pr) (m : MS)
+    (t : Thunk) (ts : List Thunk) (q : Pr) (m' : MS)
+    (hnc : isCancelled ca m.iter = false) (hd : p.delayed = t :: ts)
+    (hev : evalThunk fuel t { m with iter := m.iter + 1 } = some (q, m'))
+    (hc : isCancelled ca m'.iter = true) :
+    force (VM.sem fuel) ca (n + 2) (p :: stack) m = some (.cancelled, m') :=
+  vm_cancel_wins fuel n ca p stack m t ts q m' hnc hd hev hc
+
+/-- **C13_vm_cancel_never_offered**: the error of a cancelled nested trampoline is never offered to a
+    catch/3 frame: replacing what `Catch`'s recovery closures do with "context canceled" by ANY
+    function `alt` changes no run of a trampoline under the context of its state (the outermost and,
+    being of this form, every nested one) — no catch/3 can swallow a cancellation -/
+theorem C13_vm_cancel_never_offered (fuel n : Nat) (alt : Handler → MS → Option Pr × MS)
+    (stack : List Pr) (m : MS)
+    (hst : ∀ p ∈ stack, p.err = some cancelErr → isCancelled m.user.cancelAt m.iter = true) :
+    force (semAlt fuel alt) m.user.cancelAt n stack m = force (VM.sem fuel) m.user.cancelAt n stack m :=
+  vm_cancel_never_offered fuel n alt stack m hst
+
+/-- … although the closure by itself would accept it (model and Go code alike: a non-`Exception`
+    error is wrapped as `error(system_error, Msg)` and unified with the catcher) -/
+theorem C13_vm_cancel_error_is_catchable (h : Handler) (m : MS) (env' : Env)
+    (hflag : m.user.flag h.flag = true)
+    (hu : unify inner false h.env h.catcher cancelBall = some (env', .ok)) :
+    evalRecover h cancelErr m = (some (callGoal h.recover h.k env' m).1, (callGoal h.recover h.k env' m).2) :=
+  vm_cancel_error_is_catchable h m env' hflag hu
+
+/-- **C13_vm_no_cancel_leak**: no trampoline under the context of its state ends with
+    "context canceled" as an ordinary error result: it ends `.cancelled` -/
+theorem C13_vm_no_cancel_leak (fuel n : Nat) (stack : List Pr) (m : MS) (r : Promise.Res Err) (m' : MS)
+    (h : force (VM.sem fuel) m.user.cancelAt n stack m = some (r, m'))
+    (hst : ∀ p ∈ stack, p.err = some cancelErr → isCancelled m.user.cancelAt m.iter = true) :
+    r ≠ .error cancelErr :=
+  vm_no_cancel_leak fuel n stack m r m' h hst
+
+/-- `runQuery` = `runQueryM` (which exposes the final machine state) with the answers read off -/
+theorem C13_vm_runQuery_eq (fuel : Nat) (prog : List Term) (query : Term) (max : Nat) (cancelAt : Option Nat) :
+    runQuery fuel prog query max cancelAt =
+      (runQueryM fuel prog query max cancelAt).map (fun rm => (rm.2.user.answers.reverse, endOf rm.1)) :=
+  runQuery_eq fuel prog query max cancelAt
+
+/-- **C13_vm_run_cancelled**: for every program, query, answer limit and fuel, a run under a context
+    cancelled at poll `c` performs at most `c` successful polls in total (nested trampolines
+    included) and ends either `.cancelled`, at poll `c` exactly, or on its own, none of its polls
+    having observed the cancellation — never with the error "context canceled" of a nested trampoline -/
+theorem C13_vm_run_cancelled (fuel : Nat) (prog : List Term) (query : Term) (max c : Nat)
+    (answers : List Term) (e : End) (h : runQuery fuel prog query max (some c) = some (answers, e)) :
+    ∃ r m', runQueryM fuel prog query max (some c) = some (r, m') ∧ e = endOf r ∧
+      answers = m'.user.answers.reverse ∧ m'.iter ≤ c ∧
+      ((r = .cancelled ∧ m'.iter = c) ∨ (r ≠ .cancelled ∧ r ≠ .error cancelErr)) :=
+  vm_run_end fuel prog query max c answers e h
+
+/-- in terms of `End` alone -/
+theorem C13_vm_run_end_not_goErr (fuel : Nat) (prog : List Term) (query : Term) (max c : Nat)
+    (answers : List Term) (e : End) (h : runQuery fuel prog query max (some c) = some (answers, e)) :
+    e ≠ .goErr "context canceled" := by
+  obtain ⟨r, m', _, he, _, _, hr⟩ := vm_run_end fuel prog query max c answers e h
+  subst he
+  rcases hr with ⟨rfl, _⟩ | ⟨_, hne⟩
+  · simp [endOf]
+  · intro heq
+    apply hne
+    unfold endOf at heq
+    split at heq <;> first | cases heq | skip
+    rfl
+
+/-- "ends `.cancelled` or after FEWER than `c` polls" would be false: a run may end on its own in the
+    iteration that follows the `c`-th successful poll (counter = c, outcome `.yes`) -/
+theorem C13_vm_naive_formulation_false :
+    ∃ (r : Promise.Res Err) (m' : MS),
+      force (VM.sem 1) (some 1) 2 [okP] { user := { cancelAt := some 1 } } = some (r, m') ∧
+      r ≠ .cancelled ∧ ¬ m'.iter < 1 :=
+  Ex.naive_formulation_false
+
+/-- the worked run: `\+ repeat` under a context cancelled at poll 2 — the nested trampoline is
+    cancelled at its second poll, the thunk returns "context canceled", the outer trampoline returns
+    `.cancelled`, 2 polls in total -/
+theorem C13_vm_worked_run (n : Nat) :
+    force (VM.sem (n + 6)) (some 2) (n + 2) [Ex.negP] Ex.m0 = some (.cancelled, Ex.m2) ∧ Ex.m2.iter = 2 :=
+  ⟨Ex.outer_run n, rfl⟩
 
 end PrologVerif.C13
